@@ -472,10 +472,14 @@ def evaluate(ctx, cases, first_use_cases, coq_sample=24, do_minimise=True):
             seen[key] = f
             failures.append(f)
     # non-deterministic replay + minimisation of the first failing round of each key
-    for f in failures:
+    for i, f in enumerate(failures):
         case = f["replay"]["round"]
-        if do_minimise:
-            small, k = minimise(ctx, case)
+        if i >= 4:
+            # many different symptoms of (most likely) one cause: the first ones are minimised/rerun, the rest only listed
+            f["replay"]["rerun_failures"] = "not rerun"
+            continue
+        if do_minimise and i < 2:
+            small, k = minimise(ctx, case, budget=4)
         else:
             small = case
             k, _ = rerun_rate(ctx, case)
